@@ -357,6 +357,29 @@ def retention(chk, thorough):
             counts.append(sum(1 for w in live if w() is not None))
         rows.append({'kind': kind, 'ns': ns, 'live': counts})
         chk.count(1, ('retention', kind))
+    # per-request allocations that are not reachable from environ (caches keyed by request data): count every gc-tracked
+    # object after N1 < N2 requests whose client-chosen parts (multipart boundary, path, query, cookie) differ per request
+    import random as _random
+    from harness.checks import formlib as fl, mplib
+    rr = _random.Random(7)
+    app = fl.form_app(1000, None)
+    counts = []
+    done = 0
+    ns = [300, 1200] + ([4000] if thorough else [])
+    for n in ns:
+        while done < n:
+            b = ('bnd%dx%d' % (done, rr.randrange(10 ** 9))).encode()
+            body = mplib.encode_form([{'name': 'a%d' % done, 'value': 'v'}, {'name': 'f', 'filename': 'n%d' % done, 'data': b'xy'}], b)
+            fl.post(1000, body, 'multipart/form-data; boundary=' + b.decode(), what='forms+files')
+            L.serve(app, L.environ_for('nf', 'N%d' % done))
+            done += 1
+        gc.collect()
+        counts.append(len(gc.get_objects()))
+    # expressed like the weak-reference rows: live objects above the first measurement, per the bound of 8 per ... the judgement
+    # in Retention.tla is "grows and exceeds the bound"; here the unit is objects per 100 requests
+    per100 = [0] + [max(0, (counts[i] - counts[0]) * 100 // (ns[i] - ns[0])) for i in range(1, len(ns))]
+    rows.append({'kind': 'random-boundary multipart + 404 (all gc objects, per 100 requests)', 'ns': ns, 'live': per100})
+    chk.count(1, ('retention', 'gc-objects'))
     ws = core.tla_workspace()
     path = os.path.join(ws, 'ret.json')
     json.dump(rows, open(path, 'w'))
